@@ -34,6 +34,8 @@ pub enum Outcome {
 	Deadlock,
 	EventCap,
 	CrashPoint,
+	/// the task keeps waking itself without producing any event or letting time pass
+	Livelock,
 }
 
 pub type DaemonFuture = Pin<Box<dyn Future<Output = ()>>>;
@@ -47,13 +49,23 @@ pub fn drive(fut: &mut DaemonFuture, stop: &mut dyn FnMut(&world::World) -> Opti
 	root.0.store(true, Ordering::SeqCst);
 	let waker = Waker::from(root.clone());
 	let mut cx = Context::from_waker(&waker);
+	let mut idle_polls = 0u32;
+	let mut last_seq = 0u64;
 	loop {
 		if root.0.swap(false, Ordering::SeqCst) {
 			world::with(|w| w.set_clock());
 			if let Poll::Ready(()) = fut.as_mut().poll(&mut cx) {
 				return Outcome::Finished;
 			}
-			let (crash, cap, mono) = world::with(|w| (w.crash_now, w.seq > w.plan.sched.max_events, w.mono));
+			let (crash, cap, mono, seq) = world::with(|w| (w.crash_now, w.seq > w.plan.sched.max_events, w.mono, w.seq + w.timer_seq));
+			let spinning = if seq == last_seq {
+				idle_polls += 1;
+				idle_polls >= 3
+			} else {
+				idle_polls = 0;
+				last_seq = seq;
+				false
+			};
 			if crash {
 				world::with(|w| w.crash_now = false);
 				return Outcome::CrashPoint;
@@ -69,7 +81,18 @@ pub fn drive(fut: &mut DaemonFuture, stop: &mut dyn FnMut(&world::World) -> Opti
 					return Outcome::Stopped("horizon".into());
 				}
 			}
-			continue;
+			if !spinning {
+				continue;
+			}
+			// The task keeps waking itself without producing an event (e.g. async-lock's readers
+			// passing a notification round while a writer holds the lock).  On a real runtime that
+			// is a busy spin during which time passes until the next external event; here polls
+			// cost no virtual time, so jump to that event instead of polling for ever.
+			world::with(|w| w.count("probe.busy_spin_until_next_event"));
+			if world::with(|w| w.heap.is_empty()) {
+				return Outcome::Livelock;
+			}
+			idle_polls = 0;
 		}
 		// nothing runnable: fire the earliest timer, unless it lies beyond the horizon
 		let next = world::with(|w| w.heap.peek().map(|t| t.deadline));
